@@ -9,6 +9,7 @@ __all__ = [
     'InvalidP8Include'
 ]
 
+import io
 import os.path
 import re
 
@@ -200,7 +201,8 @@ def process_includes(lualines, filename=None):
             with open(inc_full_path, 'rb') as fh:
                 inc_game = p8_fmt_cls.from_file(
                     fh, filename=inc_full_path, do_includes=False)
-                for line in lines_for_tab(inc_game.lua.to_lines(), inc_tab):
+                inc_code = io.BytesIO(b''.join(inc_game.lua.to_lines()))
+                for line in lines_for_tab(inc_code, inc_tab):
                     yield line if line.endswith(b'\n') else line + b'\n'
         else:
             with open(inc_full_path, 'rb') as fh:
